@@ -104,7 +104,7 @@ def compile_term(j):
             out.append((T_ERROR,))
         elif k == "constr" and n == 3 and isinstance(x[2], (list, tuple)):
             tag = x[1]
-            if isinstance(tag, str):
+            if isinstance(tag, str) and tag.isdigit():
                 tag = int(tag)
             if isinstance(tag, bool) or not isinstance(tag, int) or tag < 0:
                 raise T.BadTerm("bad constr tag %r" % (x[1],))
@@ -527,3 +527,5 @@ def evaluate_verdict(term_json, variant="E", fuel=DEFAULT_FUEL, **kw):
         return Result(inconclusive=str(e), kind="BadTerm", steps=None, calls=None)
     except (RecursionError, MemoryError, OverflowError) as e:
         return Result(inconclusive=repr(e), kind=type(e).__name__, steps=None, calls=None)
+    except Exception as e:      # last resort: an oracle bug must not take the caller down
+        return Result(inconclusive="internal error: %r" % (e,), kind="InternalError", steps=None, calls=None)
